@@ -17,12 +17,13 @@ Wheres   == {"none", "cmp", "kwlit", "andor"}
 Windows  == {"none", "tumbling", "sliding", "counting", "session", "global"}
 Havings  == {"none", "alias", "agg"}
 Withs    == {"none", "ts", "tsmoo"}
-Orders   == {"none", "one", "two"}
+Orders   == {"none", "one", "two", "descbare", "barefirst"}    \* descbare: a key without direction after a DESC key (defaults to ASC)
+GbLayouts == {"kw", "wk"}                                         \* GROUP BY key, Window(...)  |  GROUP BY Window(...), key
 Limits   == {0, 3}
 Joins    == {"none", "inner", "left"}
 
-VARIABLES sel, distinct, where, win, having, with, order, limit, join
-vars == <<sel, distinct, where, win, having, with, order, limit, join>>
+VARIABLES sel, distinct, where, win, having, with, order, limit, join, gbl
+vars == <<sel, distinct, where, win, having, with, order, limit, join, gbl>>
 Agg(s) == s \in {"aggs", "aggs2"}
 WellFormed ==
   /\ (win # "none") = Agg(sel)                       \* aggregates need a window and a window query selects aggregates
@@ -32,10 +33,11 @@ WellFormed ==
   /\ (join # "none" => sel \in {"cols", "aliases"})
   /\ (distinct => sel # "aggs2")
   /\ (win = "global" => having = "none" /\ order = "none")
+  /\ (win \in {"none", "global"} => gbl = "kw")
 Init == /\ sel \in Sels /\ distinct \in BOOLEAN /\ where \in Wheres /\ win \in Windows /\ having \in Havings
-        /\ with \in Withs /\ order \in Orders /\ limit \in Limits /\ join \in Joins /\ WellFormed
+        /\ with \in Withs /\ order \in Orders /\ limit \in Limits /\ join \in Joins /\ gbl \in GbLayouts /\ WellFormed
 Next == UNCHANGED vars
 Spec == Init /\ [][Next]_vars
 Emit == PrintT(<<"SCEN", ToJson([sel |-> sel, distinct |-> distinct, where |-> where, win |-> win, having |-> having,
-                                 with |-> with, order |-> order, limit |-> limit, join |-> join])>>)
+                                 with |-> with, order |-> order, limit |-> limit, join |-> join, gbl |-> gbl])>>)
 =============================================================================
